@@ -150,9 +150,19 @@ func (p *Parser) parseHeader(data []byte) (header *parser.PacketHeader, buf []by
 		end := start + 1
 		found = false
 
+		escaped := false
 		for ; end < len(data); end++ {
 			c := data[end]
-			if c == '"' && data[end-1] != '\\' {
+			if escaped {
+				// This character is escaped by the preceding backslash.
+				escaped = false
+				continue
+			}
+			if c == '\\' {
+				escaped = true
+				continue
+			}
+			if c == '"' {
 				b := data[start : end+1]
 
 				tmp = make([]byte, len(b)+2)
